@@ -390,58 +390,167 @@ class HashRules:
                    'yes, %d paths' % len(res) if ok else 'NO: ' + det))
 
     def string_loop_induction(self, gs):
-        """Block k of the loop in the string driver is read at offset 64k for every k (symbolic iteration)."""
+        """For every k: at the head of iteration k of the block loop of the string driver the loop-carried locals are the
+        iteration-0 values advanced by k constant steps, and the body compresses exactly the block at offset 64k.
+        The steps are learnt from the code (one symbolic iteration), then checked inductively at symbolic k."""
         prog, rec = self.prog, self.rec
-        loops = [n for n in walk(gs['body']) if n['k'] in ('ForStmt', 'WhileStmt')]
-        if len(loops) != 1:
-            rec.ob('R07.e', 'R07.e@%s::string-driver-loop-inductive' % fkey(gs), None, '%s:%s' % (gs['file'], gs['line']), 'block loop not found (%d loops)' % len(loops))
+        top = gs['body'].get('c', [])
+        li = next((i for i, n in enumerate(top) if n['k'] in ('ForStmt', 'WhileStmt')), None)
+        key = 'R07.e@%s::string-driver-loop-inductive' % fkey(gs)
+        where = '%s:%s' % (gs['file'], gs['line'])
+        if li is None:
+            rec.extra['string_loop_induction'] = 'skipped: block loop is not a top-level for/while of the string driver'
             return
-        loop = loops[0]
+        loop = top[li]
         ev = []
 
         def mdl_hash(I, st, fr, nd, this, args, an):
             ev.append(tuple(args))
             return [(st, ('void',))]
+
+        def mdl_void(I, st, fr, nd, this, args, an):
+            return [(st, ('void',))]
         I = interp.Interp(prog, models=dict(models.STD_MODELS))
         I.models[self.Bq + '::getHash'] = mdl_hash
+        I.models[self.Bq + '::reset'] = mdl_void
+        I.name_intervals = False
         I._decl_is_ref = {}
         I.index_ref_decls()
         fr = I.start_frame(gs)
         fr.this = (('L', '$this', ()), ())
         st = interp.State()
         st.mem[fr.this] = P(OBJ, ())
-        # length = 64 + m + 64k, remaining at the head of iteration k = 64 + m  (m >= 0: the loop condition holds)
         st.sym['m'] = (0, 1 << 30)
         st.sym['k'] = (0, (1 << 24))
         length = L(64, {'m': 1, 'k': 64})
         for p, v in zip(gs['params'], [P(MSG, (0,)), length, P(OUTB, (0,))]):
             st.mem[fr.local(p['id'])] = v
-        decls = [d for n in walk(gs['body']) if n['k'] == 'DeclStmt' for d in n['decls']]
-        rem = [d for d in decls if prog.type(d['t']).get('k') == 'int']
-        if len(rem) != 1:
-            rec.ob('R07.e', 'R07.e@%s::string-driver-loop-inductive' % fkey(gs), None, '%s:%s' % (gs['file'], gs['line']), 'remaining-length variable not identified')
-            return
-        rl = fr.local(rem[0]['id'])
-        head = L(64, {'m': 1})
-        st.mem[rl] = head
         I.frames.append(fr)
         try:
-            # assume the loop condition holds, run body and increment once
-            ins = [s for s, b in I.cond(loop['cond'], st, fr) if b] if loop.get('cond') else [st]
-            o = I.exec(loop['body'], ins, fr)
-            after = o.norm + o.cont
-            if loop.get('inc') is not None:
-                nxt = []
-                for s in after:
-                    nxt += [s2 for s2, _ in I.ev(loop['inc'], s, fr)]
-                after = nxt
+            cur = [st]
+            for n in top[:li]:
+                cur = I.exec(n, cur, fr).norm
+            if loop['k'] == 'ForStmt' and loop.get('init') is not None:
+                cur = I.exec(loop['init'], cur, fr).norm
+            if len(cur) != 1:
+                rec.ob('R07.e', key, None, where, 'state before the block loop is not unique (%d)' % len(cur))
+                return
+            head0 = cur[0]
+
+            def one_iteration(s0):
+                del ev[:]
+                s = s0.copy()
+                ins = [x for x, b in I.cond(loop['cond'], s, fr) if b] if loop.get('cond') else [s]
+                if len(ins) != 1:
+                    return None, None
+                o = I.exec(loop['body'], ins, fr)
+                after = o.norm + o.cont
+                if loop.get('inc') is not None:
+                    nxt = []
+                    for x in after:
+                        nxt += [s2 for s2, _ in I.ev(loop['inc'], x, fr)]
+                    after = nxt
+                if len(after) != 1:
+                    return None, None
+                return after[0], list(ev)
+            s1, calls0 = one_iteration(head0)
+            if s1 is None:
+                rec.ob('R07.e', key, None, where, 'one symbolic iteration of the block loop is not a single path')
+                return
+
+            def delta(v0, v1):
+                if v0 == v1:
+                    return 0
+                if is_int(v0) and is_int(v1):
+                    d = add(v1, v0, head0.sym, -1)
+                    return d[1] if d[0] == 'c' else None
+                if v0[0] == 'p' and v1[0] == 'p' and v0[1] == v1[1] and v0[2][:-1] == v1[2][:-1] and v0[2] and v1[2]:
+                    x, y = v0[2][-1], v1[2][-1]
+                    if isinstance(x, str) or isinstance(y, str):
+                        return None
+                    d = add(C(y) if isinstance(y, int) else y, C(x) if isinstance(x, int) else x, head0.sym, -1)
+                    return d[1] if d[0] == 'c' else None
+                return None
+
+            def advance(v, d, times):
+                if d == 0:
+                    return v
+                step = mul(C(d), times, head0.sym)
+                if is_int(v):
+                    return add(v, step, head0.sym)
+                last = v[2][-1]
+                nv = add(C(last) if isinstance(last, int) else last, step, head0.sym)
+                return P(v[1], v[2][:-1] + ((nv[1] if nv[0] == 'c' else nv),))
+            deltas = {}
+            for kk in set(head0.mem) | set(s1.mem):
+                if not (isinstance(kk[0], tuple) and kk[0][0] == 'L' and kk[0][2] == ()):
+                    continue
+                v0, v1 = head0.mem.get(kk), s1.mem.get(kk)
+                if v0 is None or v1 is None:
+                    continue
+                d = delta(v0, v1)
+                if d is None:
+                    rec.ob('R07.e', key, None, where, 'loop-carried local %s does not advance by a constant step (%s -> %s)' % (kk[0][1], show(v0), show(v1)))
+                    return
+                deltas[kk] = d
+            headk = head0.copy()
+            for kk, d in deltas.items():
+                headk.mem[kk] = advance(head0.mem[kk], d, sym('k'))
+            sk1, callsk = one_iteration(headk)
+            # exit step: with length = 64k + r (r < 64) the loop stops after k iterations and what follows it
+            # finalises exactly the r bytes at offset 64k
+            exit_ok, exit_det = None, ''
+            st2 = interp.State()
+            st2.mem[fr.this] = P(OBJ, ())
+            st2.sym['r'] = (0, 63)
+            st2.sym['k'] = (0, (1 << 24))
+            for p, v in zip(gs['params'], [P(MSG, (0,)), L(0, {'r': 1, 'k': 64}), P(OUTB, (0,))]):
+                st2.mem[fr.local(p['id'])] = v
+            cur = [st2]
+            for n in top[:li]:
+                cur = I.exec(n, cur, fr).norm
+            if loop['k'] == 'ForStmt' and loop.get('init') is not None:
+                cur = I.exec(loop['init'], cur, fr).norm
+            if len(cur) == 1:
+                hk = cur[0]
+                for kk, d in deltas.items():
+                    if kk in hk.mem:
+                        hk.mem[kk] = advance(hk.mem[kk], d, sym('k'))
+                outs = [x for x, b in I.cond(loop['cond'], hk, fr) if not b] if loop.get('cond') else []
+                stays = [x for x, b in I.cond(loop['cond'], hk.copy(), fr) if b] if loop.get('cond') else []
+                if len(outs) == 1 and not stays:
+                    del ev[:]
+                    tail_calls = []
+
+                    def mdl_res(I2, st3, fr3, nd, this, args, an):
+                        tail_calls.append(('RES',) + tuple(args))
+                        return [(st3, ('void',))]
+                    I.models[self.Bq + '::getres'] = mdl_res
+                    c2 = outs
+                    for n in top[li + 1:]:
+                        c2 = I.exec(n, c2, fr).norm
+                    exit_ok = len(ev) == 1 and ev[0] == (P(MSG, (L(0, {'k': 64}),)), sym('r')) and tail_calls == [('RES', P(OUTB, (0,)))]
+                    exit_det = 'after the loop: %s then %s' % ([tuple(show(a) for a in e) for e in ev[:2]], [tuple(show(a) for a in e[1:]) for e in tail_calls[:2]])
+                else:
+                    exit_det = 'loop condition at iteration k with remaining r<64 is not decided false'
         finally:
             I.frames.pop()
-        ok = len(after) == 1 and len(ev) == 1 and ev[0] == (P(MSG, (L(0, {'k': 64}),)),) and after[0].mem.get(rl) == sym('m')
-        rec.ob('R07.e', 'R07.e@%s::string-driver-loop-inductive' % fkey(gs), ok, nloc(loop),
-               'for every k and every remaining >= 64: with remaining = len-64k at the loop head the body compresses exactly the block at offset 64k and leaves remaining = len-64(k+1) (%s)' % (
-                   'yes' if ok else 'NO: calls %s, remaining %s' % ([tuple(show(a) for a in e) for e in ev[:3]], show(after[0].mem.get(rl)) if after else '-')))
-
+        rec.ob('R07.e', 'R07.e@%s::string-driver-exit-step' % fkey(gs), exit_ok, nloc(loop),
+               'for every k and r < 64, length 64k+r: the loop ends after k iterations and the finaliser gets exactly r bytes at offset 64k, then the result is read (%s)' % (
+                   'yes' if exit_ok else 'NO: ' + exit_det))
+        ok = sk1 is not None and callsk is not None and len(callsk) == 1 and callsk[0] == (P(MSG, (L(0, {'k': 64}),)),)
+        det = ''
+        if ok:
+            for kk, d in deltas.items():
+                want = advance(headk.mem[kk], d, C(1))
+                if sk1.mem.get(kk) != want:
+                    ok = False
+                    det = 'local %s: %s instead of %s' % (kk[0][1], show(sk1.mem.get(kk)), show(want))
+        else:
+            det = 'calls at iteration k: %s' % ([tuple(show(a) for a in e) for e in (callsk or [])][:2],)
+        rec.ob('R07.e', key, ok, nloc(loop),
+               'for every k and every remaining >= 64: the loop-carried locals advance by constant steps %s and iteration k compresses exactly the block at offset 64k (%s)' % (
+                   sorted({d for d in deltas.values() if d}), 'yes' if ok else 'NO: ' + det))
 
 # ------------------------------------------------------------------------------------------------
 # R07.e (file buffer): inductive invariant of the 64-byte-unit buffer, one call at a time
@@ -468,7 +577,8 @@ def buffer_rules(self):
     prog, rec = self.prog, self.rec
     R, F = _fb_fields(prog)
     Rq = R['q']
-    H = next((g['value'] for g in prog.globals.values() if g['q'].startswith(Rq + '::') and isinstance(g.get('value'), int)), None)
+    cands = [g for g in prog.globals.values() if g['q'].startswith(Rq + '::') and isinstance(g.get('value'), int) and g.get('const')]
+    H = next((g['value'] for g in cands if g['value'] > 64 and g['value'] % 64 and False), None) or next((g['value'] for g in sorted(cands, key=lambda g: g['value']) if g['value'] > 64), None)
     if not H:
         raise AnalysisBroken('unit count constant of the file buffer not found')
     cap = H * 64
@@ -537,7 +647,7 @@ def buffer_rules(self):
             sumv = s.mem.get((('aux', 'sum'), ()))
             dstv = s.mem.get((('aux', 'filldst'), ()))
             good = (sumv is not None and consistent(s, sumv) and fld(s, 'now') == C(0) and fld(s, 'has_extra') == C(1 if with_pfx else 0)
-                    and dstv == P(FB, (F['b'], 0)))
+                    and dstv is not None and dstv[0] == 'p' and dstv[1] == FB and dstv[2][0] == F['b'] and all(x == 0 for x in dstv[2][1:]))
             if with_pfx:
                 good = good and all(s.mem.get((FB, (F['extra_entry'], i))) == sym('x%d' % i) for i in range(64))
             okc = okc and good
@@ -576,34 +686,46 @@ def buffer_rules(self):
             st.mem[(FB, (F['tail'],))] = C(0)
         return st
 
-    # ---- prefix block delivered first and once
+    skipped = []
+
+    def blk_is(s, vals):
+        return all(s.mem.get((BLK, (i,))) == v for i, v in enumerate(vals))
+
+    # ---- prefix block delivered first and once (by content: how it is copied does not matter)
     res = run(rd, prestate('lt', True), [P(BLK, (0,)), ('opaque', 'cb')])
     ok = len(res) == 1
     for s, v in res:
-        cps = s.comps.get('copies', ())
-        ok = ok and v == C(64) and fld(s, 'has_extra') == C(0) and len(cps) == 1 and cps[0][0] == P(BLK, (0,)) and cps[0][1] == P(FB, (F['extra_entry'], 0)) and cps[0][2] == C(64) \
+        ok = ok and v == C(64) and fld(s, 'has_extra') == C(0) and blk_is(s, [sym('x%d' % i) for i in range(64)]) \
             and fld(s, 'now') == sym('n') and s.comps.get('nfill', 0) == 0
-    rec.ob('R07.e', 'R07.e@%s::prefix-block-first-and-once' % fkey(rd), ok, where, 'with a pending prefix block the call returns exactly that block (64 bytes), clears the flag and touches nothing else')
+    rec.ob('R07.e', 'R07.e@%s::prefix-block-first-and-once' % fkey(rd), ok, where, 'with a pending prefix block the call returns exactly that block (64 bytes, by content), clears the flag, does not advance or refill')
 
     # ---- a full unit: now < total
-    res = run(rd, prestate('lt', False), [P(BLK, (0,)), ('opaque', 'cb')])
+    pre = prestate('lt', False)
+    for j in range(64):
+        pre.sym['u%d' % j] = (0, 255)
+        pre.mem[(FB, (F['b'], sym('n'), j))] = sym('u%d' % j)
+    pre.abs = frozenset(k for k in pre.mem if any(isinstance(x, tuple) for x in k[1]))
+    res = run(rd, pre, [P(BLK, (0,)), ('opaque', 'cb')])
     ok = len(res) >= 1
+    shape = True
     for s, v in res:
-        cps = s.comps.get('copies', ())
         now0 = sym('n')
-        ok = ok and v == C(64) and len(cps) == 1 and cps[0][1] == P(FB, (F['b'], now0, 0)) and cps[0][0] == P(BLK, (0,)) and cps[0][2] == C(64) \
-            and fld(s, 'now') == add(now0, C(1), s.sym) and fld(s, 'total') == L(0, {'n': 1, 'd': 1}) and fld(s, 'tail') == sym('tl') and s.comps.get('nfill', 0) == 0
-    rec.ob('R07.e', 'R07.e@%s::full-unit' % fkey(rd), ok, where, 'now < total: returns 64 bytes from unit b[now], now+1, no refill, total/tail unchanged')
+        ok = ok and v == C(64) and fld(s, 'now') == add(now0, C(1), s.sym) and fld(s, 'total') == L(0, {'n': 1, 'd': 1}) and fld(s, 'tail') == sym('tl') and s.comps.get('nfill', 0) == 0
+        if not blk_is(s, [sym('u%d' % j) for j in range(64)]):
+            shape = False
+    if shape:
+        rec.ob('R07.e', 'R07.e@%s::full-unit' % fkey(rd), ok, where, 'now < total: returns the 64 bytes of unit b[now] (by content), now+1, no refill, total/tail unchanged')
+    else:
+        skipped.append('full-unit (storage of b is not [units][64] with unit-wise copy)')
+        rec.ob('R07.e', 'R07.e@%s::full-unit-bookkeeping' % fkey(rd), ok, where, 'now < total: returns 64, now+1, no refill, total/tail unchanged (content left to R07.g: other storage layout)')
 
     # ---- the partial unit: now == total < H
     res = run(rd, prestate('eq-short', False), [P(BLK, (0,)), ('opaque', 'cb')])
     ok = len(res) >= 1
     for s, v in res:
-        cps = s.comps.get('copies', ())
-        ok = ok and v == sym('tl') and len(cps) == 1 and cps[0][1] == P(FB, (F['b'], sym('T'), 0)) and cps[0][2] == sym('tl') and s.comps.get('nfill', 0) == 0 \
-            and fld(s, 'tail') == C(0)
+        ok = ok and compare('==', v, sym('tl'), s.sym) is True and s.comps.get('nfill', 0) == 0 and fld(s, 'tail') == C(0)
     rec.ob('R07.e', 'R07.e@%s::partial-unit-once' % fkey(rd), ok, where,
-           'now == total < units: returns the tail bytes of unit b[total] without refilling (short fill = end of file) and zeroes tail so they are handed out once')
+           'now == total < units: returns tail bytes without refilling (short fill = end of file) and zeroes tail so they are handed out once')
 
     # ---- refill: now == total == H
     res = run(rd, prestate('eq-full', False), [P(BLK, (0,)), ('opaque', 'cb')])
@@ -613,7 +735,8 @@ def buffer_rules(self):
         fill = s.comps.get('fill')
         sumv = s.mem.get((('aux', 'sum'), ()))
         cps = s.comps.get('copies', ())
-        good = s.comps.get('nfill', 0) == 1 and sumv is not None and s.mem.get((('aux', 'filldst'), ())) == P(FB, (F['b'], 0)) and len(cps) == 1 and cps[0][1] == P(FB, (F['b'], 0, 0))
+        fd = s.mem.get((('aux', 'filldst'), ()))
+        good = s.comps.get('nfill', 0) == 1 and sumv is not None and fd is not None and fd[0] == 'p' and fd[1] == FB and fd[2][0] == F['b'] and all(x == 0 for x in fd[2][1:])
         if good:
             q = binop('>>', sumv, C(6), s.sym)
             has_unit = compare('>=', q, C(1), s.sym)
@@ -630,6 +753,8 @@ def buffer_rules(self):
     rec.ob('R07.e', 'R07.e@%s::refill' % fkey(rd), ok, where,
            'buffer consumed (now == total == units): one fread into b, then the first unit (64 bytes, now=1, 64*total+tail = bytes read) or, when fewer than 64 bytes came, exactly those bytes (%s)' % (
                'yes, %d fill cases' % len(res) if ok else 'NO: ' + det))
+    if skipped:
+        rec.extra['buffer_invariant_rule_skipped_content_checks'] = skipped
     rec.count('R07.e buffer cases', 6, 6)
 
 
@@ -653,9 +778,12 @@ def buffer_simulation(self, tier='quick'):
         R = cands[0]
     Rq = R['q']
     consts = [g for g in prog.globals.values() if g['q'].startswith(Rq + '::') and isinstance(g.get('value'), int) and g.get('const')]
-    if len(consts) != 1:
-        raise AnalysisBroken('unit count constant of the file buffer not found')
-    cname = consts[0]['q']
+    names = {g['q'] for g in consts}
+    base = [g for g in consts if g['value'] > 64 and not any(
+        (x.get('q') in names or (x.get('d') or '')[2:] in names) for x in walk(g.get('init') or {}) if x.get('k') in ('DeclRefExpr', 'MemberExpr'))]
+    if len(base) != 1:
+        raise AnalysisBroken('unit count constant of the file buffer not identified (%s)' % sorted(names))
+    cname = base[0]['q']
     H = 2
     cap = H * 64
     ctor = next(f for f in prog.functions.values() if f.get('ctor') and f.get('rec') == Rq)
